@@ -109,12 +109,13 @@ class ParseTimeout(argparse.Action):
 
     @staticmethod
     def unparse(value: float) -> str:
-        # less than 1s, render as ms
-        if value < 1:
-            return f"{int(value * 1000)}ms"
+        # whole seconds render as s
+        if value >= 1 and value == int(value):
+            return f"{int(value)}s"
 
-        # otherwise, render as s
-        return f"{int(value)}s"
+        # otherwise, render as (possibly fractional) ms so that parse(unparse(v)) == v
+        ms = round(value * 1000, 6)
+        return f"{int(ms)}ms" if ms == int(ms) else f"{ms}ms"
 
 
 class ParseCSVTraceEvent(argparse.Action):
